@@ -173,6 +173,12 @@ def tie_histories(ctx: Ctx, n):
             for a in reg:
                 got = {b.id for b in cobj.get_near_cells(a) if math.dist((a.x, a.y, a.z), (b.x, b.y, b.z)) < size}
                 want = {b.id for b in reg if b is not a and math.dist((a.x, a.y, a.z), (b.x, b.y, b.z)) < size}
+                near = [b.id for b in cobj.get_near_cells(a) if math.dist((a.x, a.y, a.z), (b.x, b.y, b.z)) < size]
+                if got == want and len(near) != len(set(near)):
+                    # a brute-force search lists every neighbour once
+                    twice = sorted({i for i in near if near.count(i) > 1})
+                    ctx.violate({"kind": "data-structure", "size": size, "what": "twice"}, f"after a protocol-obeying history atom {a.id} gets neighbours {twice} more than once", {"size": size, "ops": [list(o) for o in ops]})
+                    break
                 if got != want:
                     ctx.violate({"kind": "data-structure", "size": size, "what": "lost" if want - got else "extra"}, f"after a protocol-obeying history atom {a.id} at {(a.x, a.y, a.z)} sees {sorted(got)}, brute force {sorted(want)}", {"size": size, "ops": [list(o) for o in ops]})
                     break
@@ -305,6 +311,12 @@ class Monitor:
                     cause = ("registered-in-wrong-list", "?")
                 sig = ("lost", size, cause[0], cause[1])
                 self.problems.setdefault(sig, f"query for {atom.residue} {atom.name} (from {caller}) misses {b.residue} {b.name} at {math.dist(p, (b.x, b.y, b.z)):.2f} A: {cause[0]} since {cause[1]}")
+        inrange = [id(b) for b in res if math.dist(p, (b.x, b.y, b.z)) < size]
+        if len(inrange) != len(set(inrange)):
+            k = next(i for i in inrange if inrange.count(i) > 1)
+            b = got[k]
+            sig = ("twice", size, "filed-in-two-cells", self.last_move.get(k, self.last_unreg.get(k, "?")))
+            self.problems.setdefault(sig, f"query for {atom.residue} {atom.name} (from {caller}) returns {b.residue} {b.name} {inrange.count(k)} times: it is filed in more than one cell (last moved in {sig[3]})")
         for k, b in got.items():
             if k not in live_ids:
                 sig = ("ghost", size, "removed-without-remove_cell", self.removed_site.get(k, "?"))
